@@ -278,7 +278,10 @@ class C01(Check):
             weights.update(importer=3.0, rejecter=0.8, reader=0.5)
         nsteps = r.choice([3, 6, 10, 20, 40] + ([80, 160] if tier == "thorough" else []))
         steps += actors.schedule(rs["sched"], parties, weights, nsteps)
-        return {"backend": backend, "steps": steps, "lat": lat, "defer": defer}
+        run = {"backend": backend, "steps": steps, "lat": lat, "defer": defer}
+        if r.random() < 0.05:
+            run["clock0"] = 1_835_438_400_000_000  # 2028-02-29T12:00:00Z: the wall clock may well read a leap day
+        return run
 
     def start(self, world, run):
         super().start(world, run)
